@@ -119,6 +119,120 @@ LiftWhy(ka, A, kb, B, tab, O, stopx) ==
             ELSE MatchFlat(O, FlatLen(A) \div 2, LAMBDA p : FlatIx(A, 2 * p - 1), LAMBDA p : FlatIx(A, 2 * p), tab, stopx)
       [] OTHER -> "undefined-kinds"
 
+(* ------------------------------ lazily evaluated compositions: operational law ------------------
+   Operands per argument position: ops[k] = [k |-> kind, n |-> number of elements, sid |-> identity].
+     "num"          a plain number (one leaf)
+     "fn"           a Function: inside a lazily evaluated composition it is a constant whose value is a
+                    function; the composed elements are then functions, evaluated at NPOINTS sample points
+     "pat"          a Pattern: every traversal (every stream made from the composed pattern, every
+                    embedding, every repetition) starts it afresh
+     "strm", "rout" a Stream / Routine object: stateful, shared by everything that refers to the same object
+                    (same sid); what one traversal has drawn is gone for the next
+   The composed object is a pattern when the operand that receives the operator (the first one that is not
+   a number) is a pattern; otherwise it is a stream and pattern arguments are streamed once, when the
+   composition is built.  One next() of a traversal draws one element from every operand, left to right
+   (next(s op t) = next(s) op next(t)); the traversal ends at the first operand that has none left; elements
+   drawn before in that step are lost.  The kernel is a table over leaf indices, flattened with the first
+   operand fastest.  Laws (how the composed object is traversed):
+     "once"   one traversal (stream of it, embedding of it, nested in a list pattern)
+     "tail"   nested in a list pattern followed by a marker item
+     "twice"  two traversals one after the other (repeated by the enclosing pattern)
+     "inter"  two traversals alternating call by call (two streams of one pattern)
+   gen: the traversal runs through a generator (embedding): an element that raises ends it.
+   An observation is the sequence of outcomes of every next() until the end(s): values (or lists of values at
+   the sample points), then the end marker.                                                          *)
+StatefulK == {"strm", "rout"}
+LazyK == StatefulK \cup {"pat"}
+NPOINTS == 3
+EndV == [x |-> 2, s |-> "end"]
+MarkV == [x |-> 3, s |-> "mark"]
+\* equality of values / outcomes that never compares texts of different categories (x: 0 value, 1 exception, 2 end, 3 marker)
+ValEq(a, b) == IF a.x # b.x THEN FALSE ELSE a.s = b.s
+OutEq(a, b) == /\ ValEq(a.v, b.v) /\ Len(a.c) = Len(b.c) /\ \A p \in 1..Len(a.c) : ValEq(a.c[p], b.c[p])
+SeqOutEq(A, B) == Len(A) = Len(B) /\ \A i \in 1..Len(A) : OutEq(A[i], B[i])
+FnV == [x |-> 0, s |-> "fn"]
+Outc(v, c) == [v |-> v, c |-> c]
+RECURSIVE Prod(_, _)
+Prod(d, k) == IF k > Len(d) THEN 1 ELSE d[k] * Prod(d, k + 1)
+RECURSIVE Flat0(_, _, _)
+Flat0(ix, d, k) == IF k > Len(ix) THEN 0 ELSE (ix[k] - 1) + d[k] * Flat0(ix, d, k + 1)
+Flat(ix, d) == Flat0(ix, d, 1) + 1
+Dims(ops) == [k \in 1..Len(ops) |-> IF ops[k].k = "num" THEN 1 ELSE IF ops[k].k = "fn" THEN NPOINTS ELSE ops[k].n]
+Dispatcher(ops) ==
+    IF \A k \in 1..Len(ops) : ops[k].k = "num" THEN 0
+    ELSE CHOOSE k \in 1..Len(ops) : ops[k].k # "num" /\ \A j \in 1..(k - 1) : ops[j].k = "num"
+\* defined: the receiving operand is lazily evaluated; only binary operators have a reflected form
+LazyDefined(ops) ==
+    /\ Len(ops) >= 1 /\ Dispatcher(ops) # 0 /\ ops[Dispatcher(ops)].k \in LazyK
+    /\ (Len(ops) # 2 => Dispatcher(ops) = 1)
+    /\ \A j, k \in 1..Len(ops) : (ops[j].k \in StatefulK /\ ops[k].k \in StatefulK /\ ops[j].sid = ops[k].sid) => ops[j].n = ops[k].n
+PerTraversal(ops, k) == ops[k].k = "pat" /\ ops[Dispatcher(ops)].k = "pat"
+Cursor(ops, k) == IF ops[k].k \in StatefulK THEN ops[k].sid ELSE 100 + k     \* a pattern streamed at composition
+Cursors(ops) == {Cursor(ops, k) : k \in {j \in 1..Len(ops) : ops[j].k \in LazyK /\ ~PerTraversal(ops, j)}}
+Cur0(ops) == [c \in Cursors(ops) |-> 0]
+
+\* one step of a traversal that has completed c steps: indices drawn, or the end
+RECURSIVE Draw(_, _, _, _, _)
+Draw(ops, k, cur, c, ix) ==
+    IF k > Len(ops) THEN [ok |-> TRUE, cur |-> cur, ix |-> ix]
+    ELSE IF ops[k].k \in {"num", "fn"} THEN Draw(ops, k + 1, cur, c, Append(ix, 1))
+    ELSE IF PerTraversal(ops, k)
+         THEN (IF c + 1 > ops[k].n THEN [ok |-> FALSE, cur |-> cur, ix |-> ix]
+               ELSE Draw(ops, k + 1, cur, c, Append(ix, c + 1)))
+    ELSE LET s == Cursor(ops, k) IN
+         IF cur[s] + 1 > ops[k].n THEN [ok |-> FALSE, cur |-> cur, ix |-> ix]
+         ELSE Draw(ops, k + 1, [cur EXCEPT ![s] = @ + 1], c, Append(ix, cur[s] + 1))
+Element(ops, ix, tab) ==
+    LET d == Dims(ops)
+        fns == {k \in 1..Len(ops) : ops[k].k = "fn"} IN
+    IF fns = {} THEN Outc(tab[Flat(ix, d)], <<>>)
+    ELSE Outc(FnV, [p \in 1..NPOINTS |-> tab[Flat([k \in 1..Len(ix) |-> IF k \in fns THEN p ELSE ix[k]], d)]])
+Dies(e, gen) == gen /\ e.c = <<>> /\ e.v.x = 1
+\* one next() of a traversal t = [c, st]; st: "alive", "dying" (its generator raised), "dead"
+Call(ops, tab, cur, t, gen) ==
+    IF t.st = "dying" THEN [out |-> Outc(EndV, <<>>), cur |-> cur, t |-> [c |-> t.c, st |-> "dead"]]
+    ELSE LET d == Draw(ops, 1, cur, t.c, <<>>) IN
+         IF ~d.ok THEN [out |-> Outc(EndV, <<>>), cur |-> d.cur, t |-> [c |-> t.c, st |-> "dead"]]
+         ELSE LET e == Element(ops, d.ix, tab) IN
+              [out |-> e, cur |-> d.cur, t |-> [c |-> t.c + 1, st |-> IF Dies(e, gen) THEN "dying" ELSE "alive"]]
+Fresh0 == [c |-> 0, st |-> "alive"]
+\* a whole traversal: outcomes without the end marker, the cursors afterwards, whether it was ended by an exception
+RECURSIVE RunOne(_, _, _, _, _, _)
+RunOne(ops, tab, cur, t, gen, fuel) ==
+    IF fuel = 0 THEN [outs |-> <<>>, cur |-> cur, died |-> FALSE]
+    ELSE LET r == Call(ops, tab, cur, t, gen) IN
+         IF r.t.st = "dead" THEN [outs |-> <<>>, cur |-> r.cur, died |-> t.st = "dying"]
+         ELSE LET rest == RunOne(ops, tab, r.cur, r.t, gen, fuel - 1) IN
+              [outs |-> <<r.out>> \o rest.outs, cur |-> rest.cur, died |-> rest.died]
+RECURSIVE RunInter(_, _, _, _, _, _, _, _)
+RunInter(ops, tab, cur, t1, t2, turn, gen, fuel) ==
+    IF (t1.st = "dead" /\ t2.st = "dead") \/ fuel = 0 THEN <<>>
+    ELSE LET who == IF turn = 1 THEN (IF t1.st = "dead" THEN 2 ELSE 1) ELSE (IF t2.st = "dead" THEN 1 ELSE 2)
+             r == Call(ops, tab, cur, IF who = 1 THEN t1 ELSE t2, gen)
+         IN <<r.out>> \o RunInter(ops, tab, r.cur, IF who = 1 THEN r.t ELSE t1, IF who = 2 THEN r.t ELSE t2,
+                                  3 - who, gen, fuel - 1)
+FUEL == 40
+EndO == Outc(EndV, <<>>)
+LazyExpected(ops, tab, law, gen) ==
+    LET r1 == RunOne(ops, tab, Cur0(ops), Fresh0, gen, FUEL) IN
+    CASE law = "once" -> r1.outs \o <<EndO>>
+      [] law = "tail" -> r1.outs \o (IF r1.died THEN <<>> ELSE <<Outc(MarkV, <<>>)>>) \o <<EndO>>
+      [] law = "twice" -> r1.outs \o (IF r1.died THEN <<>> ELSE RunOne(ops, tab, r1.cur, Fresh0, gen, FUEL).outs) \o <<EndO>>
+      [] law = "inter" -> RunInter(ops, tab, Cur0(ops), Fresh0, Fresh0, 1, gen, 2 * FUEL)
+LazyWhy(ops, tab, law, gen, O) ==
+    IF ~LazyDefined(ops) THEN "lazy:undefined-kinds"
+    ELSE IF Len(tab) # Prod(Dims(ops), 1) THEN "lazy:bad-table"
+    ELSE LET E == LazyExpected(ops, tab, law, gen)
+             n == Min2(Len(E), Len(O))
+             bad == {i \in 1..n : ~OutEq(E[i], O[i])} IN
+         IF bad = {} THEN (IF Len(O) < Len(E) THEN "lazy:ends-early" ELSE IF Len(O) > Len(E) THEN "lazy:too-long" ELSE "ok")
+         ELSE LET i == CHOOSE x \in bad : \A y \in bad : x <= y IN
+              IF O[i].v.x = 2 THEN "lazy:ends-early"
+              ELSE IF E[i].v.x = 2 THEN "lazy:too-long"
+              ELSE IF O[i].v.x = 1 /\ O[i].c = <<>> /\ E[i].v.x # 1 THEN "lazy:raised:" \o O[i].v.s
+              ELSE IF (O[i].c = <<>>) # (E[i].c = <<>>) THEN "lazy:element-kind"
+              ELSE "lazy:value"
+
 (* ------------------------------ kernel laws (units of 1/8) ------------------------------ *)
 \* reference kernels (integer arithmetic; x, lo, hi, q, m in lattice units)
 RefMod(a, m) == a % m                                   \* TLA+ % is the non-negative remainder for m > 0
@@ -271,11 +385,23 @@ PickScalar == /\ phase = "start"
 PickSame == /\ phase = "start"
             /\ \E A \in FlatTrees \ {T0} :
                  ca' = A /\ cb' = A /\ ka' = "strm" /\ kb' = "same" /\ phase' = "lift" /\ args' = <<>>
+\* lazily evaluated compositions: kinds per argument position (1..3 positions), lengths, one optional pair of
+\* positions referring to the same stream object, traversal law, generator or not, kernel raising somewhere or not
+LazyOpt == {[k |-> "num", n |-> 1], [k |-> "fn", n |-> NPOINTS]}
+           \cup {[k |-> "pat", n |-> n] : n \in {2, 3}}
+           \cup {[k |-> kk, n |-> n] : kk \in StatefulK, n \in {2, 4}}
+WithSid(v, sh) == [k \in 1..Len(v) |-> [k |-> v[k].k, n |-> v[k].n, sid |-> IF sh[2] = k THEN sh[1] ELSE k]]
+Shares(v) == {<<0, 0>>} \cup {<<j, k>> \in (1..Len(v)) \X (1..Len(v)) : j < k /\ v[j].k \in StatefulK /\ v[j] = v[k]}
+LawModes == {<<"once", FALSE>>, <<"once", TRUE>>, <<"tail", TRUE>>, <<"twice", TRUE>>, <<"inter", FALSE>>, <<"inter", TRUE>>}
+PickLazy == /\ phase = "start"
+            /\ \E m \in 1..3 : \E v \in [1..m -> LazyOpt] : \E sh \in Shares(v), lm \in LawModes, xv \in BOOLEAN :
+                 /\ LazyDefined(WithSid(v, sh))
+                 /\ args' = <<WithSid(v, sh), lm[1], lm[2], xv>> /\ phase' = "lazy" /\ UNCHANGED <<ca, cb, ka, kb>>
 PickKernel == /\ phase = "start"
               /\ \E x \in Window, lo \in Window, hi \in Window, q \in Quanta :
                    /\ lo <= hi
                    /\ args' = <<x, lo, hi, q>> /\ phase' = "kernel" /\ UNCHANGED <<ca, cb, ka, kb>>
-Next == PickList \/ PickFn \/ PickStream \/ PickScalar \/ PickSame \/ PickKernel
+Next == PickList \/ PickFn \/ PickStream \/ PickScalar \/ PickSame \/ PickLazy \/ PickKernel
 Spec == Init /\ [][Next]_vars
 
 \* the prescribed result, flattened, as the observation
@@ -317,6 +443,47 @@ Symmetric ==
                        [] m = "scalar" -> <<"v", tabT[1][1]>>
                        [] OTHER -> <<"l", [p \in 1..Len(p1[2]) |-> <<"v", tabT[FlatIx(cb, p)][FlatIx(ca, p)]>>]>>
         IN Mirror(other) = p1
+\* (c) lazily evaluated compositions, on the free kernel table whose value at an index tuple is the tuple itself
+RECURSIVE Unflat(_, _, _)
+Unflat(f, d, k) == IF k > Len(d) THEN <<>> ELSE <<(f % d[k]) + 1>> \o Unflat(f \div d[k], d, k + 1)
+LazyTab(ops, xv) ==
+    [f \in 1..Prod(Dims(ops), 1) |-> IF xv /\ f = 2 THEN [x |-> 1, s |-> <<>>] ELSE [x |-> 0, s |-> Unflat(f - 1, Dims(ops), 1)]]
+LOps == args[1]
+LExp == LazyExpected(LOps, LazyTab(LOps, args[4]), args[2], args[3])
+LazyPos(ops) == {k \in 1..Len(ops) : ops[k].k \in LazyK}
+NoShare(ops) == \A j, k \in 1..Len(ops) : (j # k /\ ops[j].k \in StatefulK /\ ops[k].k \in StatefulK) => ops[j].sid # ops[k].sid
+NoFn(ops) == \A k \in 1..Len(ops) : ops[k].k # "fn"
+RECURSIVE MinLen(_, _)
+MinLen(ops, k) == IF k > Len(ops) THEN 1000 ELSE Min2(IF ops[k].k \in LazyK THEN ops[k].n ELSE 1000, MinLen(ops, k + 1))
+ShortSeq(ops, tab) ==
+    [j \in 1..MinLen(ops, 1) |-> Outc(tab[Flat([k \in 1..Len(ops) |-> IF ops[k].k \in LazyK THEN j ELSE 1], Dims(ops))], <<>>)]
+\* the matcher accepts the prescribed observation and rejects it when an outcome is dropped
+LazyAccepts == phase = "lazy" =>
+    /\ LazyWhy(LOps, LazyTab(LOps, args[4]), args[2], args[3], LExp) = "ok"
+    /\ LazyWhy(LOps, LazyTab(LOps, args[4]), args[2], args[3], SubSeq(LExp, 2, Len(LExp))) # "ok"
+\* every traversal reports its end exactly once, last
+LazyEnds == phase = "lazy" =>
+    /\ LExp[Len(LExp)].v.x = 2
+    /\ Cardinality({i \in 1..Len(LExp) : LExp[i].v.x = 2}) = (IF args[2] = "inter" THEN 2 ELSE 1)
+\* one traversal of distinct operands is the shortest-stream law of the eager matcher above
+LazyIsShort == (phase = "lazy" /\ args[2] = "once" /\ ~args[4] /\ NoShare(LOps) /\ NoFn(LOps)) =>
+    SeqOutEq(LExp, ShortSeq(LOps, LazyTab(LOps, FALSE)) \o <<EndO>>)
+\* a pattern made of patterns and constants only: every traversal gives the same sequence
+LazyPatternsRestart ==
+    (phase = "lazy" /\ ~args[4] /\ LOps[Dispatcher(LOps)].k = "pat" /\ \A k \in 1..Len(LOps) : LOps[k].k \notin StatefulK) =>
+        LET once == RunOne(LOps, LazyTab(LOps, FALSE), Cur0(LOps), Fresh0, FALSE, FUEL).outs IN
+        /\ (args[2] = "twice" => SeqOutEq(LExp, once \o once \o <<EndO>>))
+        /\ (args[2] = "inter" => \A i \in 1..Len(once) : OutEq(LExp[2 * i - 1], once[i]) /\ OutEq(LExp[2 * i], once[i]))
+        /\ (args[2] = "tail" => SeqOutEq(LExp, once \o <<Outc(MarkV, <<>>), EndO>>))
+\* a stateful operand is never rewound nor read twice: the indices used at its position strictly increase
+LeafIx(e, k) == IF e.c = <<>> THEN e.v.s[k] ELSE e.c[1].s[k]
+LazyConserves == (phase = "lazy" /\ ~args[4]) =>
+    \A k \in {j \in 1..Len(LOps) : LOps[j].k \in LazyK /\ ~PerTraversal(LOps, j)} :
+        LET vals == SelectSeq(LExp, LAMBDA e : e.v.x \in {0, 1}) IN
+        \A i \in 1..(Len(vals) - 1) : LeafIx(vals[i], k) < LeafIx(vals[i + 1], k)
+\* through a generator nothing follows an element that raised but the end
+LazyGeneratorDies == (phase = "lazy" /\ args[3] /\ args[2] # "inter") =>
+    \A i \in 1..(Len(LExp) - 1) : (LExp[i].c = <<>> /\ LExp[i].v.x = 1) => i = Len(LExp) - 1
 \* (b) reference kernels satisfy the laws on the lattice window
 KernelLaws ==
     phase = "kernel" =>
